@@ -42,6 +42,8 @@ inductive Scalar where
 
 inductive SeqKind where
   | list | tuple | code
+  | partialFn -- functools.partial: (func, args, keywords)          (fix d402cc88, D70)
+  | boundMethod -- bound method: (__func__, __self__)
   deriving DecidableEq, Repr
 
 /-- What `bytes_repr_function` yields between `function:(` and `)`. -/
@@ -306,14 +308,20 @@ def sortedKeysByValue (ks : List Scalar) : Except Err (List Scalar) := pySorted 
 def seqName : SeqKind → Bytes
   | .list => ascii "list"
   | .tuple => ascii "tuple"
-  | .code => []     -- `code:(` is a literal of `bytes_repr_code`
+  | .code => []     -- `code:(`, `partial:(`, `method:(` are literals of their serializers
+  | .partialFn => []
+  | .boundMethod => []
 
 def seqOpenLit : SeqKind → Bytes
   | .code => HashLits.codeOpen
+  | .partialFn => HashLits.partialOpen
+  | .boundMethod => HashLits.methodOpen
   | k => seqName k ++ HashLits.seqOpen
 
 def seqCloseLit : SeqKind → Bytes
   | .code => HashLits.codeClose
+  | .partialFn => HashLits.partialClose
+  | .boundMethod => HashLits.methodClose
   | _ => HashLits.seqClose
 
 def setName (frozen : Bool) : Bytes := if frozen then ascii "frozenset" else ascii "set"
